@@ -7,6 +7,10 @@ fn main() {
         prov_gen::explore(&args.extra[1..]);
         return;
     }
+    if args.extra.first().map(|s| s.as_str()) == Some("--explore-lib") {
+        prov_gen::explore_lib(&args.extra[1..]);
+        return;
+    }
     prov_gen::run_why(&args, "From IL Require Import Checks.C21.", "c21_check");
     // leaked worker threads (timed-out explanations) must not keep the process alive
     std::process::exit(0);
